@@ -770,6 +770,65 @@ fn unreachable_target_slice(ctx: &mut Ctx) {
 /// The follow mode given as the word -follow AFTER the tests (tests that capture the mode when they
 /// are parsed would miss it): every test of the vocabulary must select exactly what it selects
 /// under -L.
+/// -empty on directories whose only entries have names that are not valid UTF-8 (a file named 0xff, a
+/// directory named by a lone continuation byte, a truncated sequence): they are not empty — at depth
+/// 0 and 1, reached directly and through a link, under every follow mode.
+fn empty_with_undecodable_names(ctx: &mut Ctx) {
+    use crate::findrun::run_find;
+    use std::os::unix::ffi::OsStrExt;
+    let base = ctx.sbx.join("eu");
+    let _ = crate::sandbox::force_remove(&base);
+    let os = |b: &[u8]| std::ffi::OsStr::from_bytes(b).to_os_string();
+    for d in ["e0", "e1", "e2", "e3", "e4", "e5"] {
+        std::fs::create_dir_all(base.join("t").join(d)).unwrap();
+    }
+    std::fs::write(base.join("t/e1/a"), b"").unwrap();
+    std::fs::write(base.join("t/e2").join(os(b"\xff")), b"").unwrap();
+    std::fs::create_dir(base.join("t/e3").join(os(b"\x80"))).unwrap();
+    std::fs::write(base.join("t/e4/\u{e9}"), b"").unwrap();
+    std::os::unix::fs::symlink("nowhere", base.join("t/e5").join(os(b"ab\xc3"))).unwrap();
+    std::os::unix::fs::symlink("e2", base.join("t/l2")).unwrap();
+    std::os::unix::fs::symlink("e0", base.join("t/l0")).unwrap();
+    std::env::set_current_dir(&base).unwrap();
+    for flag in ["-P", "-H", "-L"] {
+        // depth 1
+        for (neg, want) in [(false, if flag == "-L" { vec!["e0", "l0"] } else { vec!["e0"] }), (true, if flag == "-L" { vec!["e1", "e2", "e3", "e4", "e5", "l2"] } else { vec!["e1", "e2", "e3", "e4", "e5"] })] {
+            let mut args: Vec<&str> = vec![flag, "t", "-mindepth", "1", "-maxdepth", "1", "-sorted", "-type", "d"];
+            if neg {
+                args.push("!");
+            }
+            args.extend(["-empty", "-printf", "%f\\n"]);
+            let got = run_find(&args);
+            ctx.rep.evaluations += 1;
+            ctx.rep.nontrivial += 1;
+            let lines: Vec<String> = String::from_utf8_lossy(&got.out).lines().map(String::from).collect();
+            if lines != want || got.code != Ok(0) {
+                ctx.rep.violation(
+                    &format!("C13 -empty on a directory whose entries have names that are not valid UTF-8 [{flag}]"),
+                    format!("find {:?}: printed {:?}, expected {:?}; status {:?}", args, lines, want, got.code),
+                    json!({"prop":"C13","empty_undecodable":true}),
+                );
+            }
+        }
+        // depth 0, directly and through a link
+        for (root, want_empty) in [("t/e0", true), ("t/e2", false), ("t/e3", false), ("t/e5", false), ("t/l2/", false), ("t/l0/", true)] {
+            let got = run_find(&[flag, root, "-maxdepth", "0", "-empty", "-printf", "E\n"]);
+            ctx.rep.evaluations += 1;
+            ctx.rep.nontrivial += 1;
+            let is = got.out == b"E\n";
+            if is != want_empty || got.code != Ok(0) {
+                ctx.rep.violation(
+                    &format!("C13 -empty on a directory whose entries have names that are not valid UTF-8 [{flag}]"),
+                    format!("find {flag} {root} -maxdepth 0 -empty: selected={is}, expected {want_empty}; status {:?}", got.code),
+                    json!({"prop":"C13","empty_undecodable":true}),
+                );
+            }
+        }
+    }
+    std::env::set_current_dir(&ctx.sbx).unwrap();
+    let _ = crate::sandbox::force_remove(&base);
+}
+
 fn follow_word_after_slice(ctx: &mut Ctx) {
     let sbx = ctx.sbx.clone();
     if let Err(e) = build_kinds(&sbx) {
@@ -820,6 +879,9 @@ fn run(ctx: &mut Ctx) {
     if ctx.shard == 3 % ctx.nshards {
         unreachable_target_slice(ctx);
     }
+    if ctx.shard == 5 % ctx.nshards {
+        empty_with_undecodable_names(ctx);
+    }
     part_kinds(ctx);
     let sbx = ctx.sbx.clone();
     if let Err(e) = build_perm(&sbx, ctx.tier == Tier::Thorough) {
@@ -833,6 +895,10 @@ fn run(ctx: &mut Ctx) {
 
 fn replay(case: &Value, ctx: &mut Ctx) -> Option<String> {
     let sbx = ctx.sbx.clone();
+    if case["empty_undecodable"] == true {
+        empty_with_undecodable_names(ctx);
+        return ctx.rep.violations.keys().next().cloned();
+    }
     if case["part"] == "follow_word" {
         follow_word_after_slice(ctx);
         return ctx.rep.violations.keys().next().cloned();
